@@ -45,6 +45,11 @@ def sha(data):
     return hashlib.sha1(data).hexdigest()[:16]
 
 
+def nl(data):
+    """XML transport normalises CRLF to LF in text nodes; compare report data modulo that."""
+    return data.replace(b"\r\n", b"\n")
+
+
 def _run_git(path, *args):
     e = dict(os.environ)
     e.update({"GIT_CONFIG_NOSYSTEM": "1", "GIT_CONFIG_GLOBAL": "/dev/null", "LC_ALL": "C"})
@@ -488,7 +493,7 @@ class DavSys:
                     views[nm]["multiget"] = x.prop_text(dav.P_GETETAG)
                     d = x.prop_text(dataprop)
                     if d is not None:
-                        views[nm]["multiget_data"] = sha(d.encode("utf-8"))
+                        views[nm]["multiget_data"] = sha(nl(d.encode("utf-8")))
         if kind == "calendar":
             r = self.req("REPORT", base, dict(dav.XML_CT, Depth="1"), dav.calquery_body(dav.ALL_VCALENDAR, [dav.P_GETETAG]))
             a["query_status"] = r.status
@@ -660,7 +665,7 @@ class DavSys:
                         self.violation("C02", "head-status", "HEAD answers %s where GET answers 200" % a["head"][nm][0], {"op": op, "name": nm})
                 for view, v in views.items():
                     if view == "multiget_data":
-                        if v != sha(body):
+                        if v != sha(nl(body)):
                             self.violation("C02", "multiget-data-differs", "multiget data differs from GET body", {"op": op, "name": self.canon_name(nm)})
                         continue
                     if v != et:
@@ -711,7 +716,7 @@ class DavSys:
             tag = t["sync"]
             state = self.coll_state(coll, a)
             # versioned metadata is part of what a git tag covers
-            meta = tuple(sorted((k, repr(v)) for k, v in a["props"].items() if k != "resourcetype"))
+            meta = tuple(sorted(self.model[coll]["props"].items())) if self.model.get(coll) else ()
             self.obs.append(("tag", self.cfg.label, coll if self.cfg.metadata != "file" else "*", tag, state, meta, a["props"].get("resourcetype") and tuple(a["props"]["resourcetype"])))
             pa = prev[coll]
             if not pa["exists"]:
